@@ -402,7 +402,8 @@ def contains(interp, container, x):
         return container.py_contains(interp, x)
     if isinstance(container, str) and isinstance(x, str):
         return x in container
-    if isinstance(container, (tuple, list)) and all(not is_z3(e) for e in container) and not is_z3(x):
+    if isinstance(container, (tuple, list)) and all(not is_z3(e) and not isinstance(e, SSeq) for e in container) \
+            and not is_z3(x) and not isinstance(x, SSeq):
         return any(concrete(z_eq(e, x)) is True or interp.identical(e, x) is True for e in container)
     seq = as_seq_or_none(interp, container)
     if seq is None:
@@ -570,7 +571,28 @@ def _mod(interp, a, b):
     raise Unsupported('modulo of non-integers')
 
 
+class UnionV(Value):
+    """`X | Y` on classes / types (types.UnionType): only usable as an annotation or in isinstance"""
+
+    def __init__(self, members):
+        self.members = tuple(members)
+
+    def py_binop(self, interp, op, other, refl):
+        if op == 'BitOr' and _is_typeish(other):
+            mine, theirs = self.members, (other.members if isinstance(other, UnionV) else (other,))
+            return UnionV(theirs + mine if refl else mine + theirs)
+        return NOT_IMPLEMENTED
+
+
+def _is_typeish(v):
+    return v is None or isinstance(v, (ClassRef, Ext, UnionV)) or (
+        isinstance(v, PyFunc) and v.name in ('int', 'float', 'bool', 'str', 'tuple', 'list', 'dict', 'set', 'type',
+                                             'slice', 'bytes'))
+
+
 def scalar_binop(interp, op, a, b):
+    if op == 'BitOr' and _is_typeish(a) and _is_typeish(b) and not (a is None and b is None):
+        return UnionV((a,) + ((b,) if not isinstance(b, UnionV) else b.members))
     # sequences
     if op == 'Add' and (isinstance(a, (tuple, str, SSeq)) or isinstance(b, (tuple, str, SSeq))):
         if isinstance(a, tuple) and isinstance(b, tuple):
@@ -694,6 +716,8 @@ def _len(interp, v):
 def _isinstance(interp, v, c):
     if isinstance(c, tuple):
         return z_or(*[_isinstance(interp, v, x) for x in c])
+    if isinstance(c, UnionV):
+        return z_or(*[(v is None) if x is None else _isinstance(interp, v, x) for x in c.members])
     if interp.theory is not None:
         r = interp.theory.isinstance_(interp, v, c)
         if r is not None:
@@ -1007,4 +1031,5 @@ BUILTINS = {
     'classmethod': PyFunc(lambda interp, f: f, 'classmethod'),
     'property': PyFunc(lambda interp, f: f, 'property'),
     'bytes': PyFunc(lambda interp, *a: (_ for _ in ()).throw(Unsupported('bytes()')), 'bytes'),
+    'complex': _callable_type('complex'),
 }
